@@ -227,6 +227,59 @@ def run_sigints(rep: Report, session, rng, words, n: int, traces, owners) -> Non
         raise tlc.MachineryError(f"only {landed} of {n} SIGINTs landed inside a blocking call")
 
 
+def run_animated(rep: Report, session, rng, words, quick: bool, traces, owners) -> None:
+    """Animated draw (2 frames, one loop): the body is not enumerated by the model; the harness
+    injects a fault at every call of the fault-free run and TLC judges each log with the "loose
+    body" draw machine (restore before the finalizer hook, word restored unless the fault hit the
+    clean-up)."""
+    n_virtual = n_real = 0
+    for hide in (False, True):
+        for word in (rng.sample(words, 2) if quick else words):
+            scn = {"opx": dict(vtty.NO_OP, name="draw", hide=hide, echo=False, nbody=-1), "op": "draw", "attr0": word,
+                   "win": K.WIN0, "ioctlFails": False, "preload": [], "sched": [], "enabled": True, "swap": False,
+                   "tmo": 64, "pred": K.PRED0, "term": dict(K.BASE_TERM)}
+            base = vtty.run_virtual(scn)
+            if base["final"]["status"] != "returned":
+                rep.violation(f"draw:animated:{base['final']['status']}", json.dumps(base["final"])[:600],
+                              {"kind": "anim", "scn": scn, "fault": None})
+                continue
+            n = len(base["events"])
+            plans = [None] + [{"k": k, "when": w, "kind": KINDS[(k + i) % 2] if quick else kd}
+                              for k in range(1, n + 1) for i, w in enumerate(("before", "after"))
+                              for kd in (KINDS[:1] if quick else KINDS)]
+            for fault in plans:
+                run = vtty.run_virtual(scn, fault)
+                rep.evaluations += 1
+                owner = {"kind": "anim", "scn": scn, "fault": fault, "mode": f"animated draw hide={hide}",
+                         "calls": [ev["call"] for ev in run["events"]]}
+                if run["final"]["status"] == "hung" or "traceback" in run["final"]:
+                    rep.violation(hang_signature("draw", run["final"]["kind"]) if run["final"]["status"] == "hung"
+                                  else f"draw:raises:{run['final']['kind']}",
+                                  f"animated draw, fault {fault}: {run['final'].get('hang') or run['final'].get('traceback')}", owner)
+                    continue
+                traces.append(K.make_trace("virtual", scn, run, c12=False, c13=True))
+                owners.append(owner)
+                n_virtual += 1
+                rep.distinct.add(("anim", hide, json.dumps(word), json.dumps(fault)))
+            for fault in rng.sample(plans, min(len(plans), 12 if quick else len(plans))):
+                try:
+                    res = session.run(dict(scn, tmo=T5S), fault=fault)
+                except termsim.NoReturn as e:
+                    rep.violation(hang_signature("draw", "StillWaiting"), f"animated draw on a real pty: {e}; fault {fault}",
+                                  {"kind": "anim", "scn": scn, "fault": fault})
+                    continue
+                rep.evaluations += 1
+                if "traceback" in res["final"]:
+                    rep.violation(f"draw:raises:{res['final']['kind']}", res["final"]["traceback"],
+                                  {"kind": "anim", "scn": scn, "fault": fault})
+                    continue
+                traces.append(real_trace(dict(scn, tmo=T5S), res))
+                owners.append({"kind": "anim", "scn": scn, "fault": fault, "mode": f"animated draw hide={hide} (pty)",
+                               "calls": [ev["call"] for ev in res["events"]]})
+                n_real += 1
+    rep.extra["animated_draw_faults"] = {"virtual": n_virtual, "pty": n_real}
+
+
 def judge(rep: Report, traces, owners) -> None:
     if not traces:
         return
@@ -265,7 +318,7 @@ def judge(rep: Report, traces, owners) -> None:
             f"{v['want']!r}, log has {v['got']!r}); mode {o.get('mode')}; fault {o.get('fault')}; word at entry "
             f"{t['env']['attr0']} afterwards {t['final']['attr']}; outcome {t['final']['status']} {t['final']['kind']}; "
             f"calls {o.get('calls')}" + (f"; raw before/after {o['raw']}" if "raw" in o else ""),
-            {k: o[k] for k in ("kind", "fault_line", "fault_kind", "scn") if k in o})
+            {k: o[k] for k in ("kind", "fault_line", "fault_kind", "scn", "fault") if k in o})
     rep.extra["exempt_faults_seen"] = exempt
     if any(o["kind"] == "probe" for o in owners) and not probes_ok and not rep.violations:
         raise tlc.MachineryError("no tampered trace could be judged (self-test of the alarm did not run)")
@@ -297,6 +350,10 @@ def main(rep: Report, replay: dict | None) -> None:
         try:
             if sc["kind"] == "vtty":
                 run, ok = replay_virtual(rep, sc["fault_line"], sc["fault_kind"])
+            elif sc["kind"] == "anim":
+                run = vtty.run_virtual(sc["scn"], sc.get("fault"))
+                traces.append(K.make_trace("virtual", sc["scn"], run, c12=False, c13=True))
+                owners.append({"kind": "anim", "scn": sc["scn"], "fault": sc.get("fault"), "mode": "animated draw (replay)"})
             elif sc["kind"] == "pty":
                 session = termsim.PtySession(src)
                 run_real(rep, session, sc["fault_line"], sc["fault_kind"], traces, owners)
@@ -331,6 +388,8 @@ def main(rep: Report, replay: dict | None) -> None:
     faults = [f for f in faults if not f["exempt"]]  # faults inside the outermost clean-up: not injected
     for i, f in enumerate(faults):
         kinds = KINDS if not quick else (KINDS[(i + rep.seed) % 2],)
+        if f["opx"]["name"] == "draw":
+            kinds = (f["fault"]["kind"],)  # draw: the kind is part of the model (except KeyboardInterrupt)
         for kind in kinds:
             run, ok = replay_virtual(rep, f, kind)
             good += ok
@@ -357,7 +416,8 @@ def main(rep: Report, replay: dict | None) -> None:
     # 3. code -> spec on a real pty
     groups: dict[tuple, list[dict]] = {}
     for f in faults:
-        groups.setdefault((mode_key(f), f["fault"]["k"], f["fault"]["when"]), []).append(f)
+        groups.setdefault((mode_key(f), f["fault"]["k"], f["fault"]["when"],
+                           f["fault"]["kind"] if f["opx"]["name"] == "draw" else ""), []).append(f)
     picks: list[tuple[dict, str]] = []
     keys = sorted(groups)
     if quick:
@@ -365,11 +425,12 @@ def main(rep: Report, replay: dict | None) -> None:
         rest = [k for k in keys if '"draw"' not in k[0]]
         chosen = draw + rng.sample(rest, min(len(rest), 520))
         for j, k in enumerate(chosen):
-            picks.append((rng.choice(groups[k]), KINDS[j % 2]))
+            g = rng.choice(groups[k])
+            picks.append((g, g["fault"]["kind"] if g["opx"]["name"] == "draw" else KINDS[j % 2]))
     else:
         for k in keys:
             for f in groups[k]:
-                for kind in KINDS if f["fired"] else KINDS[:1]:
+                for kind in (f["fault"]["kind"],) if f["opx"]["name"] == "draw" else KINDS if f["fired"] else KINDS[:1]:
                     picks.append((f, kind))
     session = termsim.PtySession(src)
     try:
@@ -379,6 +440,8 @@ def main(rep: Report, replay: dict | None) -> None:
         words = sorted({json.dumps(f["attr0"], sort_keys=True) for f in faults})
         run_sigints(rep, session, rng, [json.loads(w) for w in words], 12 if quick else 120, traces, owners)
         lap("sigint")
+        run_animated(rep, session, rng, [json.loads(w) for w in words], quick, traces, owners)
+        lap("animated")
     finally:
         rep.extra["pty_stalls_retried"] = getattr(session, "stalls", 0)
         session.close()
